@@ -108,7 +108,7 @@ fn install_bucket(sim: &Sim, p: usize, c: usize) -> Arc<Mutex<Bucket>> {
     sim.set_handler(Box::new(move |req| {
         let mut b = st2.lock().unwrap_or_else(|e| e.into_inner());
         match req {
-            Request::List { bucket, prefix, max_keys, .. } => {
+            Request::List { bucket, prefix, max_keys, continuation, .. } => {
                 // true S3 semantics: every key that starts with the prefix, in UTF-8 binary key order
                 b.requested_raw.push(prefix.clone());
                 if let Some(d) = prefix.strip_prefix("KDMX/").and_then(|r| r.strip_suffix('/')).and_then(|d| d.parse::<usize>().ok()) {
@@ -145,10 +145,11 @@ fn install_bucket(sim: &Sim, p: usize, c: usize) -> Arc<Mutex<Bucket>> {
                     }
                 }
                 objs.sort_by(|a, b| a.key.as_bytes().cmp(b.key.as_bytes()));
-                let lim = max_keys.unwrap_or(1000);
-                let truncated = objs.len() > lim;
-                objs.truncate(lim);
-                Response::xml(200, list_xml(bucket, prefix, &objs, truncated, 0))
+                // ListObjectsV2 paging: a page cut short by max-keys carries a continuation token
+                match page(&objs, *max_keys, continuation) {
+                    Ok((pg, next)) => Response::xml(200, list_xml_tok(bucket, prefix, &pg, next.is_some(), 0, next.as_deref())),
+                    Err(()) => Response::xml(400, invalid_argument_xml()),
+                }
             }
             other => {
                 b.odd.push(other.raw().to_string());
